@@ -150,30 +150,25 @@ theorem old_multiplier_wrong_for_17_byte_entries :
 
 /-! ### rebuilding from index + journal -/
 
+/-- one deletion with the journal kept as a list of keys -/
+def delStep (os : Nat) (st : List Nat × List Nat) (k : Nat) : List Nat × List Nat :=
+  match searchAndMark os st.1 k with
+  | none => st
+  | some e => (e, st.2 ++ [k])
+
 /-- a run of deletions with the journal kept as a list of keys -/
 def deleteAll (os : Nat) (ecx : List Nat) (ks : List Nat) : List Nat × List Nat :=
-  ks.foldl (fun (st : List Nat × List Nat) k =>
-    match searchAndMark os st.1 k with
-    | none => st
-    | some e => (e, st.2 ++ [k])) (ecx, [])
+  ks.foldl (delStep os) (ecx, [])
 
-/-- `rebuild_same_live_set` — for EVERY index and EVERY sequence of deleted keys (present or
+/-- `rebuild_same_index` — for EVERY index and EVERY sequence of deleted keys (present or
     absent, repeated or not): re-applying the journal to the ORIGINAL index (`RebuildEcxFile`)
     yields byte-for-byte the index that the deletions produced; in particular the decoded entries
     and the live sets are the same. -/
 theorem rebuild_same_index (os : Nat) (orig : List Nat) (ks : List Nat) :
     rebuildWith os orig (deleteAll os orig ks).2 = (deleteAll os orig ks).1 := by
   unfold deleteAll
-  -- generalise over the state reached so far
   suffices h : ∀ (ks : List Nat) (st : List Nat × List Nat), rebuildWith os orig st.2 = st.1 →
-      rebuildWith os orig (ks.foldl (fun (st : List Nat × List Nat) k =>
-        match searchAndMark os st.1 k with
-        | none => st
-        | some e => (e, st.2 ++ [k])) st).2 =
-      (ks.foldl (fun (st : List Nat × List Nat) k =>
-        match searchAndMark os st.1 k with
-        | none => st
-        | some e => (e, st.2 ++ [k])) st).1 from h ks (orig, []) rfl
+      rebuildWith os orig (ks.foldl (delStep os) st).2 = (ks.foldl (delStep os) st).1 from h ks (orig, []) rfl
   intro ks
   induction ks with
   | nil => intro st h; exact h
@@ -181,6 +176,7 @@ theorem rebuild_same_index (os : Nat) (orig : List Nat) (ks : List Nat) :
     intro st h
     simp only [List.foldl_cons]
     apply ih
+    unfold delStep
     cases hs : searchAndMark os st.1 k with
     | none => exact h
     | some e =>
@@ -204,6 +200,106 @@ theorem journal_record_roundtrip :
 theorem tombstone_entry_decodes :
     decodeEntry 4 (tombstoneEntry 4 77) = ⟨77, 0, -1⟩ ∧ decodeEntry 5 (tombstoneEntry 5 77) = ⟨77, 0, -1⟩ ∧
     (tombstoneEntry 4 77).length = entryWidth 4 ∧ (tombstoneEntry 5 77).length = entryWidth 5 := by decide
+
+/-! ### sessions: close / reopen between deletes -/
+
+/-- the journal append seeks to the END of the file before writing, and a new session opens the
+    existing journal WITHOUT O_APPEND (so without that seek it would write from position 0): the
+    two facts `Vol.journalWrite` / `Vol.reopen` are modelled from -/
+theorem bridge_journal_append :
+    SwV.Gen.C07.journalSeekOffset = "0" ∧ SwV.Gen.C07.journalSeekWhence = "io.SeekEnd" ∧
+    SwV.Gen.C07.journalOpenName = "indexBaseFileName + \".ecj\"" ∧
+    SwV.Gen.C07.journalOpenFlags = "os.O_RDWR | os.O_CREATE" := by decide
+
+/-- the deleted keys of an event sequence, in order -/
+def delsOf : List Ev → List Nat
+  | [] => []
+  | .del k :: rest => k :: delsOf rest
+  | .reopen :: rest => delsOf rest
+
+/-- MAIN THEOREM for sessions — for EVERY index, EVERY sequence of deletes interleaved with ANY
+    number of close/reopen events: the served index is the one the deletes produce, and the
+    journal file is exactly the 8-byte records of all deleted PRESENT keys of ALL sessions, in
+    order (nothing is overwritten or lost by a reopen). -/
+theorem sessions_journal_complete (os : Nat) (orig : List Nat) (evs : List Ev) :
+    (Vol.run os orig evs).ecx = (deleteAll os orig (delsOf evs)).1 ∧
+    (Vol.run os orig evs).ecj = ((deleteAll os orig (delsOf evs)).2).flatMap (beBytes 8) := by
+  unfold Vol.run deleteAll
+  suffices h : ∀ (evs : List Ev) (v : Vol) (st : List Nat × List Nat),
+      v.ecx = st.1 → v.ecj = st.2.flatMap (beBytes 8) →
+      (evs.foldl (Vol.step os) v).ecx = ((delsOf evs).foldl (delStep os) st).1 ∧
+      (evs.foldl (Vol.step os) v).ecj = (((delsOf evs).foldl (delStep os) st).2).flatMap (beBytes 8) from
+    h evs ⟨orig, [], 0⟩ (orig, []) rfl rfl
+  intro evs
+  induction evs with
+  | nil => intro v st h1 h2; exact ⟨h1, h2⟩
+  | cons e rest ih =>
+    intro v st h1 h2
+    cases e with
+    | reopen =>
+      simp only [List.foldl_cons, delsOf, Vol.step]
+      exact ih v.reopen st h1 h2
+    | del k =>
+      simp only [List.foldl_cons, delsOf, Vol.step]
+      apply ih
+      · unfold Vol.delete delStep; rw [h1]
+        cases searchAndMark os st.1 k with
+        | none => exact h1
+        | some e => rfl
+      · unfold Vol.delete delStep; rw [h1]
+        cases searchAndMark os st.1 k with
+        | none => exact h2
+        | some e =>
+          simp only [Vol.journalWrite]
+          rw [writeAt_end, h2]
+          simp [List.flatMap_append]
+
+/-- `rebuild_same_live_set` over sessions — rebuilding from a PRISTINE copy of the index plus the
+    journal FILE left by any number of sessions gives byte-for-byte the served index (ids are
+    64-bit), hence the same live set. -/
+theorem sessions_rebuild_same_index (os : Nat) (orig : List Nat) (evs : List Ev)
+    (hk : ∀ k ∈ delsOf evs, k < 2 ^ 64) :
+    rebuild os orig (Vol.run os orig evs).ecj = (Vol.run os orig evs).ecx := by
+  obtain ⟨h1, h2⟩ := sessions_journal_complete os orig evs
+  unfold rebuild
+  rw [h2, h1, ecjKeys_flatMap]
+  · exact rebuild_same_index os orig (delsOf evs)
+  · -- journalled keys are among the deleted keys
+    have : ∀ (ks : List Nat) (st : List Nat × List Nat), (∀ x ∈ st.2, x < 2 ^ 64) → (∀ x ∈ ks, x < 2 ^ 64) →
+        ∀ x ∈ (ks.foldl (delStep os) st).2, x < 2 ^ 64 := by
+      intro ks
+      induction ks with
+      | nil => intro st hs _; exact hs
+      | cons k rest ih =>
+        intro st hs hks
+        simp only [List.foldl_cons]
+        apply ih
+        · unfold delStep
+          cases searchAndMark os st.1 k with
+          | none => exact hs
+          | some e =>
+            intro x hx
+            simp only [List.mem_append, List.mem_singleton] at hx
+            rcases hx with hx | hx
+            · exact hs x hx
+            · subst hx; exact hks _ (by simp)
+        · intro x hx; exact hks x (by simp [hx])
+    exact this (delsOf evs) (orig, []) (by simp) hk
+
+theorem sessions_rebuild_same_live_set (os : Nat) (orig : List Nat) (evs : List Ev)
+    (hk : ∀ k ∈ delsOf evs, k < 2 ^ 64) :
+    liveSet (decode os (rebuild os orig (Vol.run os orig evs).ecj)) = liveSet (decode os (Vol.run os orig evs).ecx) := by
+  rw [sessions_rebuild_same_index os orig evs hk]
+
+example : ∃ evs : List Ev, delsOf evs = [7, 42, 90] ∧ evs.length = 5 :=
+  ⟨[.del 7, .del 42, .reopen, .del 90, .reopen], rfl, rfl⟩
+
+/-- without the seek-to-end (write at the handle position, 0 after a reopen) the statement is
+    FALSE: two entries, delete 5, reopen, delete 8 — the record of key 5 is overwritten -/
+theorem journal_without_seek_end_witness :
+    let bs := entryBytes 4 5 1 10 ++ entryBytes 4 8 2 20
+    let v1 := Vol.reopen (Vol.delete 4 ⟨bs, [], 0⟩ 5)
+    ecjKeys (writeAt v1.ecj v1.pos (beBytes 8 8)) = [8] ∧ ecjKeys (Vol.delete 4 v1 8).ecj = [5, 8] := by decide
 
 /-! ### sorted-file needle map (known findings, reproduced by the model) -/
 
